@@ -206,7 +206,60 @@ def update_each_iteration(ck, ctx):
     ck.ob("update", "fancy-stores-counts", okc, "FancyState::update stores a clone of the counts it is given", span=ub.loc, fn=ub.nname)
 
 
+def status_line(ck, ctx):
+    """"each such step is counted in exactly one state": every count printed on the fancy status line is a linear form over the six
+    per-state counters (total() being the sum of all six, rule total|sums-six-slots); evaluated symbolically, the finished quantity is
+    exactly Done+Failed, the runnable one exactly Queued+Running+Ready (so they are disjoint and neither contains Want), and every
+    printed form has coefficients 0/1."""
+    F = ctx.F
+    b = ck.need("fn progress_fancy::FancyState::print_progress", F.body("progress_fancy::FancyState::print_progress"))
+    R = ctx.res(b)
+    ck.functions.add(b.nname)
+    ST = ("Want", "Ready", "Queued", "Running", "Done", "Failed")
+
+    def lin(x):
+        """coefficient dict over ST, or None when not a linear form of the counters"""
+        x = strip(x)
+        if x[0] == "bin" and x[1] in ("Add", "Sub"):
+            l, r = lin(x[2]), lin(x[3])
+            if l is None or r is None:
+                return None
+            sg = 1 if x[1] == "Add" else -1
+            return {k: l[k] + sg * r[k] for k in ST}
+        if x[0] == "call" and x[1] == "work::StateCounts::get":
+            a = strip(x[2][1])
+            if a[0] == "agg" and a[2] == "work::BuildState" and a[3] in ST:
+                return {k: int(k == a[3]) for k in ST}
+            return None
+        if x[0] == "call" and x[1] == "work::StateCounts::total":
+            return {k: 1 for k in ST}
+        return None
+
+    shown = []
+    for bb, t in b.calls():
+        c = callee_of(t)
+        if not ("fmt::rt::Argument" in c and "new_display" in c):
+            continue
+        e = strip(R.arg(bb, 0))
+        if not any(x[1] in ("work::StateCounts::get", "work::StateCounts::total") for x in calls_in(e)):
+            continue
+        v = lin(e)
+        shown.append((v, t["loc"], show(e, 3)))
+    ck.floor("counts printed on the status line", len(shown), 4)
+    forms = []
+    for n, (v, loc, txt) in enumerate(shown):
+        ok = v is not None and all(c in (0, 1) for c in v.values())
+        st = tuple(k for k in ST if v and v[k]) if v else ()
+        forms.append(set(st) if ok else None)
+        ck.ob("status-line", "counts-each-state-at-most-once#%d" % n, ok, "the printed count is a 0/1 combination of the per-state counters: %s = %s" % (txt, "+".join(st) if ok else v), span=loc, fn=b.nname)
+    fin = [x for x in forms if x and "Done" in x and len(x) < 6]
+    run_ = [x for x in forms if x and "Running" in x and len(x) < 6]
+    ok = len(fin) == 1 and len(run_) == 1 and fin[0] == {"Done", "Failed"} and run_[0] == {"Queued", "Running", "Ready"}
+    ck.ob("status-line", "partition", ok, "finished = Done+Failed, runnable = Queued+Running+Ready (disjoint; Want in neither): finished %s, runnable %s" % (sorted(map(sorted, fin)), sorted(map(sorted, run_))), span=b.loc, fn=b.nname)
+
+
 def run(ck, ctx):
+    status_line(ck, ctx)
     # `tasks_run + work.tasks_run` does not double count: whenever phase 1 ran a command, phase 2 counts in a Work created after it
     from . import C17 as R17
     _info = R17.analyse(ck, ctx)
